@@ -24,6 +24,9 @@ type parserDom struct {
 	p         *Program
 	e         *Engine
 	pobj      *avObj
+	book      *avObj       // bookkeeping of the domain (token counter, token symbols, which object is the parser)
+	tokField  [2]string    // names of the parser's current-token and look-ahead-token fields
+	tokenElem [2]string    // names of the token's type and value fields
 	ptype     *types.Named // parser struct
 	exprFn    *ssa.Function
 	precFn    *ssa.Function
@@ -81,13 +84,33 @@ func newParserDom(p *Program) *parserDom {
 			continue
 		}
 		ntok := 0
+		var tf [2]string
 		for i := 0; i < st.NumFields(); i++ {
 			if isLexerToken(st.Field(i).Type()) {
+				if ntok < 2 {
+					tf[ntok] = st.Field(i).Name()
+				}
 				ntok++
 			}
 		}
 		if ntok >= 2 {
 			d.ptype = nt
+			d.tokField = tf // declaration order: the current token, then the look-ahead
+			// the token's fields: the TokenType-typed one and the string one
+			d.tokenElem = [2]string{"Type", "Value"}
+			for i := 0; i < st.NumFields(); i++ {
+				if isLexerToken(st.Field(i).Type()) {
+					if ts, ok := st.Field(i).Type().Underlying().(*types.Struct); ok {
+						for k := 0; k < ts.NumFields(); k++ {
+							if isTokenType(ts.Field(k).Type()) {
+								d.tokenElem[0] = ts.Field(k).Name()
+							} else if b, ok := ts.Field(k).Type().Underlying().(*types.Basic); ok && b.Info()&types.IsString != 0 {
+								d.tokenElem[1] = ts.Field(k).Name()
+							}
+						}
+					}
+				}
+			}
 		}
 	}
 	if d.ptype == nil {
@@ -130,8 +153,17 @@ func newParserDom(p *Program) *parserDom {
 		b, ok := sig.Params().At(0).Type().Underlying().(*types.Basic)
 		return ok && b.Kind() == types.Int && isNodeType(sig.Results().At(0).Type())
 	}
-	for _, m := range methods {
-		if reaches[m][m] {
+	// ... called from a function of the package that is not itself part of the recursion (a method such as parse(), or
+	// the package's entry function when the top level was inlined into it)
+	var entries []*ssa.Function
+	entries = append(entries, methods...)
+	for _, f := range p.Funcs {
+		if f.Pkg == pkg && f.Parent() == nil && f.Signature.Recv() == nil {
+			entries = append(entries, f)
+		}
+	}
+	for _, m := range entries {
+		if reaches[m] != nil && reaches[m][m] {
 			continue
 		}
 		for _, c := range staticCallees(m) {
@@ -153,7 +185,8 @@ func newParserDom(p *Program) *parserDom {
 	// leaf sub-parsers (they consume tokens but never re-enter the expression parser): same treatment as the recursive core
 	for _, m := range methods {
 		sig := m.Signature
-		if !d.scc[m] && sig.Params().Len() == 1 && isNodeType(sig.Params().At(0).Type()) && sig.Results().Len() == 3 && isNodeType(sig.Results().At(0).Type()) {
+		if !d.scc[m] && sig.Params().Len() == 1 && isNodeType(sig.Params().At(0).Type()) && sig.Results().Len() >= 2 && isNodeType(sig.Results().At(0).Type()) &&
+			isErrorType(sig.Results().At(sig.Results().Len()-1).Type()) {
 			d.scc[m] = true
 		}
 	}
@@ -221,6 +254,7 @@ func (d *parserDom) start(root *ssa.Function, open ...*ssa.Function) (*Engine, *
 		d.forceOpen[f] = true
 	}
 	d.pobj = e.NewObj("parser", d.ptype)
+	d.book = e.NewObj("book", nil)
 	st := newState()
 	// package initialisers (tables held in package-level variables)
 	if pkg := d.p.SSA.Package(d.p.Parser.Types); pkg != nil {
@@ -237,9 +271,13 @@ func (d *parserDom) start(root *ssa.Function, open ...*ssa.Function) (*Engine, *
 			e.Aborted = ""
 		}
 	}
-	st.store(avPtr{d.pobj, "#n"}, avConst{constant.MakeInt64(0)})
-	st.store(avPtr{d.pobj, ".curr"}, d.newToken(st))
-	st.store(avPtr{d.pobj, ".next"}, d.newToken(st))
+	st.store(avPtr{d.book, "#n"}, avConst{constant.MakeInt64(0)})
+	if root.Signature.Recv() != nil || root == d.precFn {
+		// a method is entered with the two look-ahead tokens in place; an entry function primes them itself
+		st.store(avPtr{d.book, "#pobj"}, avPtr{d.pobj, ""})
+		st.store(avPtr{d.pobj, "." + d.tokField[0]}, d.newToken(st))
+		st.store(avPtr{d.pobj, "." + d.tokField[1]}, d.newToken(st))
+	}
 	return e, st
 }
 
@@ -259,20 +297,20 @@ func (initDom) Call(e *Engine, st *State, site ssa.CallInstruction, callee *ssa.
 func (initDom) Load(e *Engine, st *State, p avPtr, t types.Type) AV { return zeroAV(t) }
 
 func (d *parserDom) newToken(st *State) avStruct {
-	nv, _ := st.load(avPtr{d.pobj, "#n"})
+	nv, _ := st.load(avPtr{d.book, "#n"})
 	n, _ := st.KnownInt(nv)
 	n++
-	st.store(avPtr{d.pobj, "#n"}, avConst{constant.MakeInt64(n)})
+	st.store(avPtr{d.book, "#n"}, avConst{constant.MakeInt64(n)})
 	t := avSym{id: d.e.fresh(), tag: fmt.Sprintf("tokT%d", n)}
 	v := avSym{id: d.e.fresh(), tag: fmt.Sprintf("tokV%d", n)}
-	st.store(avPtr{d.pobj, fmt.Sprintf("#tok[%d].T", n)}, t)
-	st.store(avPtr{d.pobj, fmt.Sprintf("#tok[%d].V", n)}, v)
-	return avStruct{f: map[string]AV{"Type": t, "Value": v}}
+	st.store(avPtr{d.book, fmt.Sprintf("#tok[%d].T", n)}, t)
+	st.store(avPtr{d.book, fmt.Sprintf("#tok[%d].V", n)}, v)
+	return avStruct{f: map[string]AV{d.tokenElem[0]: t, d.tokenElem[1]: v}}
 }
 
 // SetToken pins token i (1-based) to a type (by name) and optionally a constant value.
 func (d *parserDom) SetToken(st *State, i int, typ string, value *string) bool {
-	tv, ok := st.load(avPtr{d.pobj, fmt.Sprintf("#tok[%d].T", i)})
+	tv, ok := st.load(avPtr{d.book, fmt.Sprintf("#tok[%d].T", i)})
 	if !ok {
 		return false
 	}
@@ -285,14 +323,26 @@ func (d *parserDom) SetToken(st *State, i int, typ string, value *string) bool {
 	}
 	if value != nil {
 		// replace the value symbol by a constant wherever the token currently sits
-		vs, _ := st.load(avPtr{d.pobj, fmt.Sprintf("#tok[%d].V", i)})
-		for _, f := range []string{".curr", ".next"} {
-			if got, ok := st.load(avPtr{d.pobj, f + ".Value"}); ok && avKey(got) == avKey(vs) {
-				st.store(avPtr{d.pobj, f + ".Value"}, avConst{constant.MakeString(*value)})
+		vs, _ := st.load(avPtr{d.book, fmt.Sprintf("#tok[%d].V", i)})
+		po := d.parserObj(st)
+		for _, f := range []string{"." + d.tokField[0], "." + d.tokField[1]} {
+			if got, ok := st.load(avPtr{po, f + "." + d.tokenElem[1]}); ok && avKey(got) == avKey(vs) {
+				st.store(avPtr{po, f + "." + d.tokenElem[1]}, avConst{constant.MakeString(*value)})
 			}
 		}
 	}
 	return true
+}
+
+// parserObj is the object that currently plays the parser (the one handed to the analysed method, or the one the entry
+// function allocated and passed to the lexer).
+func (d *parserDom) parserObj(st *State) *avObj {
+	if v, ok := st.load(avPtr{d.book, "#pobj"}); ok {
+		if p, ok := v.(avPtr); ok {
+			return p.o
+		}
+	}
+	return d.pobj
 }
 
 func (d *parserDom) tokenIndex(st *State, typeSym AV) int {
@@ -308,7 +358,7 @@ func (d *parserDom) tokenIndex(st *State, typeSym AV) int {
 }
 
 func (d *parserDom) currIndex(st *State) int {
-	v, ok := st.load(avPtr{d.pobj, ".curr.Type"})
+	v, ok := st.load(avPtr{d.parserObj(st), "." + d.tokField[0] + "." + d.tokenElem[0]})
 	if !ok {
 		return -1
 	}
@@ -340,6 +390,9 @@ func (d *parserDom) Call(e *Engine, st *State, site ssa.CallInstruction, callee 
 				ai++
 			}
 			if ptr, ok := args[ai].(avPtr); ok {
+				if ptr.o.typ != nil && types.Identical(ptr.o.typ, d.ptype) {
+					st.store(avPtr{d.book, "#pobj"}, avPtr{ptr.o, ""}) // the parser may be a local of the entry function
+				}
 				st.store(ptr, d.newToken(st))
 				st.event(Event{Kind: "lex", Fn: callee, Pos: site.Pos()})
 			}
@@ -377,8 +430,8 @@ func (d *parserDom) Call(e *Engine, st *State, site ssa.CallInstruction, callee 
 		if callee == d.exprFn {
 			kind = "expr"
 		}
-		st.store(avPtr{d.pobj, ".curr"}, d.newToken(st))
-		st.store(avPtr{d.pobj, ".next"}, d.newToken(st))
+		st.store(avPtr{d.parserObj(st), "." + d.tokField[0]}, d.newToken(st))
+		st.store(avPtr{d.parserObj(st), "." + d.tokField[1]}, d.newToken(st))
 		to := d.currIndex(st)
 		res := make([]AV, nres)
 		for i := range res {
@@ -464,7 +517,7 @@ func (it patItem) String() string {
 
 func (d *parserDom) tokItem(st *State, i int) patItem {
 	it := patItem{Tok: i}
-	tv, ok := st.load(avPtr{d.pobj, fmt.Sprintf("#tok[%d].T", i)})
+	tv, ok := st.load(avPtr{d.book, fmt.Sprintf("#tok[%d].T", i)})
 	if !ok {
 		return it
 	}
@@ -503,7 +556,7 @@ func (d *parserDom) consumed(st *State) (items []patItem, curr, next patItem) {
 		items = append(items, d.tokItem(st, i))
 	}
 	curr = d.tokItem(st, ci)
-	if v, ok := st.load(avPtr{d.pobj, ".next.Type"}); ok {
+	if v, ok := st.load(avPtr{d.parserObj(st), "." + d.tokField[1] + "." + d.tokenElem[0]}); ok {
 		next = d.tokItem(st, d.tokenIndex(st, v))
 	}
 	return
@@ -519,7 +572,7 @@ func patString(items []patItem) string {
 
 // tokenValueSym returns the Value symbol of token i.
 func (d *parserDom) tokenValueSym(st *State, i int) AV {
-	v, _ := st.load(avPtr{d.pobj, fmt.Sprintf("#tok[%d].V", i)})
+	v, _ := st.load(avPtr{d.book, fmt.Sprintf("#tok[%d].V", i)})
 	return v
 }
 
